@@ -102,11 +102,16 @@ pub enum Pred {
     /// `|k, _| *k == S` — uses QualifierKey's case-insensitive comparison
     KeyEq(String),
     KeyNe(String),
+    /// stateful predicate: rejects the first `n` entries it is shown, keeps the rest
+    /// (a predicate that is offered an entry twice, or out of order, decides differently)
+    SkipFirst(u8),
 }
 
 impl Pred {
-    fn eval(&self, lk: &str, v: &str) -> bool {
+    fn eval(&self, lk: &str, v: &str, calls: &mut u32) -> bool {
+        *calls += 1;
         match self {
+            Pred::SkipFirst(n) => *calls > *n as u32,
             Pred::All => true,
             Pred::Nothing => false,
             Pred::KeyLe(x) => lk <= x.as_str(),
@@ -116,8 +121,10 @@ impl Pred {
         }
     }
 
-    fn eval_real(&self, k: &purl::qualifiers::QualifierKey, v: &str) -> bool {
+    fn eval_real(&self, k: &purl::qualifiers::QualifierKey, v: &str, calls: &mut u32) -> bool {
+        *calls += 1;
         match self {
+            Pred::SkipFirst(n) => *calls > *n as u32,
             Pred::All => true,
             Pred::Nothing => false,
             Pred::KeyLe(x) => k.as_str() <= x.as_str(),
@@ -379,16 +386,18 @@ pub fn apply_model(m: &mut M, op: &QOp) -> String {
         },
         QOp::ContainsTyped(i) => m.contains_key(typed_key(*i)).to_string(),
         QOp::Retain(p) => {
-            m.retain(|k, v| p.eval(k, v));
-            "()".into()
+            let mut calls = 0;
+            m.retain(|k, v| p.eval(k, v, &mut calls));
+            format!("predicate-calls={calls}")
         },
         QOp::RetainMut(p, app) => {
+            let mut calls = 0;
             m.retain(|k, v| {
-                let keep = p.eval(k, v);
+                let keep = p.eval(k, v, &mut calls);
                 v.push_str(app);
                 keep
             });
-            "()".into()
+            format!("predicate-calls={calls}")
         },
         QOp::Clear => {
             m.clear();
@@ -634,16 +643,18 @@ pub fn apply_real(q: &mut Qualifiers, op: &QOp) -> String {
         }
         .to_string(),
         QOp::Retain(p) => {
-            q.retain(|k, v| p.eval_real(k, v));
-            "()".into()
+            let mut calls = 0;
+            q.retain(|k, v| p.eval_real(k, v, &mut calls));
+            format!("predicate-calls={calls}")
         },
         QOp::RetainMut(p, app) => {
+            let mut calls = 0;
             q.retain_mut(|k, v| {
-                let keep = p.eval_real(k, v);
+                let keep = p.eval_real(k, v, &mut calls);
                 v.push_str(app);
                 keep
             });
-            "()".into()
+            format!("predicate-calls={calls}")
         },
         QOp::Clear => {
             q.clear();
@@ -859,7 +870,7 @@ pub fn run_history(ops: &[QOp]) -> Option<(usize, Fail)> {
 
 // --- workloads -------------------------------------------------------------------------------
 
-const UK: [&str; 9] = ["a", "A", "b", "B", "c", "", "!", "a b", "é"];
+const UK: [&str; 11] = ["a", "A", "b", "B", "c", "", "!", "a b", "é", "\u{212A}", "a\u{17F}"];
 const UV: [&str; 3] = ["", "x", "Y"];
 
 fn universe_ops() -> Vec<QOp> {
@@ -893,7 +904,7 @@ fn universe_ops() -> Vec<QOp> {
         v.push(QOp::Retain(Pred::KeyEq(s(k))));
         v.push(QOp::Retain(Pred::KeyNe(s(k))));
     }
-    for p in [Pred::All, Pred::Nothing, Pred::KeyLe(s("a")), Pred::KeyLe(s("b")), Pred::ValueNonEmpty] {
+    for p in [Pred::All, Pred::Nothing, Pred::KeyLe(s("a")), Pred::KeyLe(s("b")), Pred::ValueNonEmpty, Pred::SkipFirst(0), Pred::SkipFirst(1), Pred::SkipFirst(2), Pred::SkipFirst(3)] {
         v.push(QOp::Retain(p.clone()));
         v.push(QOp::RetainMut(p, s("~")));
     }
@@ -1008,7 +1019,8 @@ fn rand_op(r: &mut Rng, pool: &[String]) -> QOp {
             }
         },
         29 => QOp::ContainsTyped(r.below(N_TYPED as usize) as u8),
-        30 => QOp::Retain(match r.below(6) {
+        30 => QOp::Retain(match r.below(7) {
+            6 => Pred::SkipFirst(r.below(5) as u8),
             0 => Pred::All,
             1 => Pred::Nothing,
             2 => Pred::KeyLe(r.pick(pool).clone()),
@@ -1016,7 +1028,11 @@ fn rand_op(r: &mut Rng, pool: &[String]) -> QOp {
             4 => Pred::KeyEq(k),
             _ => Pred::KeyNe(k),
         }),
-        31 => QOp::RetainMut(if r.coin() { Pred::KeyNe(k) } else { Pred::ValueNonEmpty }, rand_val(r)),
+        31 => QOp::RetainMut(match r.below(3) {
+            0 => Pred::KeyNe(k),
+            1 => Pred::ValueNonEmpty,
+            _ => Pred::SkipFirst(r.below(5) as u8),
+        }, rand_val(r)),
         32 => {
             if r.chance(1, 6) {
                 QOp::Clear
